@@ -80,6 +80,21 @@ class Summaries:
                 if rx.search(name):
                     f = g
                     break
+        if f is None:
+            # a std adaptor's own implementation of an Iterator method (`<Copied<I> as Iterator>::nth`): it is
+            # specified to behave like the provided method of the trait
+            m_ = re.match(r'^<(std|core)::[^ ]* as (std::iter::(?:DoubleEnded)?Iterator)>::(\w+)$', name)
+            if m_:
+                n3 = '%s::%s' % (m_.group(2), m_.group(3))
+                f = self.table.get(n3)
+                if f is None:
+                    for rx, g in self.patterns:
+                        if rx.search(n3):
+                            f = g
+                            break
+                if f is not None:
+                    name = n3
+                    ctx.callee = n3
         if f is None and name.endswith('::ne'):
             # PartialEq::ne is the negation of eq
             eqn = name[:-2] + 'eq'
